@@ -19,6 +19,14 @@ FAMILIES = ["flow", "hotspot", "circuitbreaker", "isolation", "system"]
 MUTATORS = ("insert", "remove", "clear", "entry", "get_mut", "retain", "push", "extend", "append", "or_default", "or_insert_with")
 
 
+def manager_bodies(f, fam):
+    """the public operations of a rule manager in their normalised views (private helpers are read inside them)"""
+    from . import inline
+    mod = "core::%s::rule_manager" % fam
+    return {p: f.view(b) for p, b in f.bodies.items() if p.startswith(mod + "::") and b.kind == "Fn"
+            and not (inline.default_policy(f, b, b) and f.callers_of(p))}
+
+
 def run(ctx):
     ctx.explanation = (
         "Provenance analysis of rule sets inside the five manager modules: a local HashSet/HashMap is 'valid-only' when every insertion "
@@ -34,7 +42,9 @@ def run(ctx):
     n_mgr = 0
     for fam in FAMILIES:
         mod = "core::%s::rule_manager" % fam
-        bodies = {p: b for p, b in f.bodies.items() if p.startswith(mod + "::") and b.kind == "Fn"}
+        # the manager's functions in their normalised views; private helpers (lock wrappers, shared sub-steps) are read inside the
+        # public operations that call them
+        bodies = manager_bodies(f, fam)
         if not bodies:
             continue
         n_mgr += 1
@@ -604,7 +614,7 @@ def raw_snapshot(ctx, f, fam, bodies, cfg):
         # helper calls that do it (isolation's clear_rules_of_resource)
         for bb, t in b.calls():
             for tg in f.call_targets(b, t):
-                hb = f.bodies.get(tg)
+                hb = bodies.get(tg)
                 if hb is not None and tg in bodies and tg != b.path:
                     if any(any(x.startswith("static:") and x.endswith("::" + raw) for x in container_roots(f, hb, tt["args"][0])) for _, tt in hb.calls() if tt["args"] and callee_def(tt).rsplit("::", 1)[-1] in ("insert", "remove", "clear")):
                         writes.append(bb)
